@@ -24,6 +24,8 @@ def opOfJson (j : J) : Op :=
     .registerDefaultResolver (j.strD "type") (resolverOfJson (j.getD "resolver")) (j.boolD "allow_override")
   | "register_subscription" =>
     .registerSubscription (j.strD "type") (j.strD "field") (resolverOfJson (j.getD "resolver")) (j.boolD "allow_override") (j.boolD "same")
+  | "assign" =>
+    .assignResolver (j.natD "level") (j.strD "type") (j.strD "field") (resolverOfJson (j.getD "resolver")) (j.boolD "same")
   | "replace_types" =>
     .replaceTypes ((j.arrD "entries").map entryOfJson) ((j.arrD "dir_entries").map dirEntryOfJson)
       (match j.get? "healed" with | some (.obj kvs) => some (Driver.schemaOfJson (.obj kvs)) | _ => none)
